@@ -1,10 +1,10 @@
 use alloc::borrow::ToOwned;
 use core::{iter::Peekable, str::Chars};
-use ixdtf::parsers::{records::UtcOffsetRecordOrZ, IxdtfParser};
+use ixdtf::parsers::records::UtcOffsetRecordOrZ;
 
 use crate::{builtins::timezone::UtcOffset, TemporalError, TemporalResult, TimeZone};
 
-use super::{parse_ixdtf, ParseVariant};
+use super::{parse_ixdtf, parse_time_without_utc_designator, ParseVariant};
 
 #[inline]
 pub(crate) fn parse_allowed_timezone_formats(s: &str) -> Option<TimeZone> {
@@ -12,9 +12,8 @@ pub(crate) fn parse_allowed_timezone_formats(s: &str) -> Option<TimeZone> {
         parse_ixdtf(s, ParseVariant::DateTime).map(|r| (r.offset, r.tz))
     {
         (offset, annotation)
-    } else if let Ok((offset, annotation)) = IxdtfParser::from_str(s)
-        .parse_time()
-        .map(|r| (r.offset, r.tz))
+    } else if let Ok((offset, annotation)) =
+        parse_time_without_utc_designator(s).map(|r| (r.offset, r.tz))
     {
         (offset, annotation)
     } else if let Ok((offset, annotation)) =
